@@ -94,24 +94,26 @@ static int run_twin(const char* file, uint64_t seed, int n){ FILE* f=fopen(file,
   while(fscanf(f,"%%d %%d %%d",&a,&b,&p)==3){ twin_one<float>("f",a,b,p,seed,n); twin_one<double>("d",a,b,p,seed,n); twin_one<long double>("l",a,b,p,seed,n); } fclose(f); return 0; }
 // inverse file line: id_fwd id_back posA(position of A in fwd args) posC(position of C in back args) sqrt-flag
 //  fwd: C = f(A,B) ; back: A = g(.. C at posC, B at the other ..)
-template<class T> static void inv_one(const char* tn, int ifw, int ibk, int nfw, int posA, int posC, int sq, int lin, const int* role, uint64_t seed, int n){
+template<class T> static void inv_one(const char* tn, int ifw, int ibk, int nfw, int posA, int posC, int sq, int lin, const int* role, int roleC, uint64_t seed, int n){
   auto ff = table<T>().find(ifw), fb = table<T>().find(ibk); if(ff==table<T>().end()||fb==table<T>().end()) return;
   const Info* i1 = info_of(ifw); std::mt19937_64 g(seed*104729+ifw*131+ibk); std::uniform_real_distribution<double> U(1.0,2.0);
   double worst=0; long cnt=0; int nonfinite=0; long double wit=0;
   for(int t=0;t<n;t++){ T x[96]={0}; int span = std::min(60, std::numeric_limits<T>::max_exponent/4);
     for(int a=0;a<nfw;a++) for(int c=0;c<i1->asz[a];c++) x[a*9+c]=(T)std::ldexp(U(g), (int)(g()%%(unsigned)span) - span/2);
-    if(role[0]||role[1]){ // admissible thermodynamic state: cv, gamma in [1.25,1.75], cp = gamma cv, R = cp - cv
-      T cv=(T)std::ldexp(U(g), (int)(g()%%(unsigned)span) - span/2), gam=(T)(1.25+0.5*(U(g)-1.0)), cp=gam*cv, R=cp-cv;
+    if(role[0]||role[1]){ // admissible thermodynamic state: cv > 0, gamma - 1 in [2^-13, 4) (gases from heavy polyatomic to far beyond monatomic), cp = gamma cv, R = cp - cv
+      T cv=(T)std::ldexp(U(g), (int)(g()%%(unsigned)span) - span/2), gam=(T)1+(T)std::ldexp(U(g), 1-(int)(g()%%14)), cp=gam*cv, R=cp-cv;
       for(int a=0;a<nfw;a++){ T v = role[a]==1? cp : role[a]==2? cv : role[a]==3? R : role[a]==4? gam : x[a*9]; x[a*9]=v; } }
     T c1[16]; int nc = ff->second(x,c1); T y[96]={0};
     for(int c=0;c<nc;c++) y[posC*9+c]=c1[c];
     if(nfw==2) for(int c=0;c<i1->asz[1-posA];c++) y[(1-posC)*9+c]=x[(1-posA)*9+c];
     T a2[16]; int na = fb->second(y,a2);
-    for(int c=0;c<na;c++){ if(!std::isfinite((long double)a2[c])){ nonfinite++; continue; } double u=ulps<T>(a2[c], x[posA*9+c]); if(lin){ T sc=std::fabs(x[posA*9+c]); if(nfw==2) sc=std::max(sc,std::fabs(x[(1-posA)*9+c])); sc=std::max(sc,std::fabs(c1[c])); int e; std::frexp(sc,&e); u=(double)(std::fabs(a2[c]-x[posA*9+c])/std::ldexp((T)1,e-std::numeric_limits<T>::digits)); } if(u>worst){ worst=u; wit=(long double)x[posA*9+c]; } cnt++; } }
-  printf("{\"e\":\"Inverse\",\"fwd\":%%d,\"back\":%%d,\"num\":\"%%s\",\"ulps\":%%ld,\"n\":%%ld,\"nonfinite\":%%d,\"sqrt\":%%d,\"kappa\":%%d,\"witness\":\"%%La\"}\n", ifw, ibk, tn, worst>1e9? 1000000000L:(long)std::ceil(worst), cnt, nonfinite, sq, (role[0]||role[1])? 8:1, wit);
+    // when the intermediate quantity IS the heat capacity ratio, rounding it to T loses gamma - 1 to relative accuracy eps gamma/(gamma - 1): inherent to the round trip, whatever the formulas
+    double kap = 1; if(roleC==4 && c1[0]>(T)1) kap = (double)(c1[0]/(c1[0]-(T)1));
+    for(int c=0;c<na;c++){ if(!std::isfinite((long double)a2[c])){ nonfinite++; continue; } double u=ulps<T>(a2[c], x[posA*9+c])/kap; if(lin){ T sc=std::fabs(x[posA*9+c]); if(nfw==2) sc=std::max(sc,std::fabs(x[(1-posA)*9+c])); sc=std::max(sc,std::fabs(c1[c])); int e; std::frexp(sc,&e); u=(double)(std::fabs(a2[c]-x[posA*9+c])/std::ldexp((T)1,e-std::numeric_limits<T>::digits))/kap; } if(u>worst){ worst=u; wit=(long double)x[posA*9+c]; } cnt++; } }
+  printf("{\"e\":\"Inverse\",\"fwd\":%%d,\"back\":%%d,\"num\":\"%%s\",\"ulps\":%%ld,\"n\":%%ld,\"nonfinite\":%%d,\"sqrt\":%%d,\"kappa\":%%d,\"witness\":\"%%La\"}\n", ifw, ibk, tn, worst>1e9? 1000000000L:(long)std::ceil(worst), cnt, nonfinite, sq, (role[0]||role[1])? 2:1, wit);
 }
-static int run_inverse(const char* file, uint64_t seed, int n){ FILE* f=fopen(file,"r"); if(!f) return 3; int a,b,nf,pa,pc,sq,lin,role[2];
-  while(fscanf(f,"%%d %%d %%d %%d %%d %%d %%d %%d %%d",&a,&b,&nf,&pa,&pc,&sq,&lin,&role[0],&role[1])==9){ inv_one<float>("f",a,b,nf,pa,pc,sq,lin,role,seed,n); inv_one<double>("d",a,b,nf,pa,pc,sq,lin,role,seed,n); inv_one<long double>("l",a,b,nf,pa,pc,sq,lin,role,seed,n); } fclose(f); return 0; }
+static int run_inverse(const char* file, uint64_t seed, int n){ FILE* f=fopen(file,"r"); if(!f) return 3; int a,b,nf,pa,pc,sq,lin,role[2],rc;
+  while(fscanf(f,"%%d %%d %%d %%d %%d %%d %%d %%d %%d %%d",&a,&b,&nf,&pa,&pc,&sq,&lin,&role[0],&role[1],&rc)==10){ inv_one<float>("f",a,b,nf,pa,pc,sq,lin,role,rc,seed,n); inv_one<double>("d",a,b,nf,pa,pc,sq,lin,role,rc,seed,n); inv_one<long double>("l",a,b,nf,pa,pc,sq,lin,role,rc,seed,n); } fclose(f); return 0; }
 
 // opnative file line: id opcode(0 + 1 - 2 * 3 /) : every operator instance equals, bit for bit, the native operation on the stored values
 template<class T> static void opnative_one(const char* tn, int id, int opc, uint64_t seed, int n){
